@@ -25,6 +25,8 @@
 (*                         planned set is empty                               *)
 (*   TieBreakByOrder       of two equally loaded shards scraping the same target  *)
 (*                         in the same state, the later one drops its copy       *)
+(*   RevertOrphanTransfer  an in_transfer copy (scraped MinWait times) that no other   *)
+(*                         in-sync shard holds is put back to normal state         *)
 (*   TooBigFirst           relief stops at a too big target before looking at  *)
 (*                         whether the target is a candidate for moving        *)
 (* The pinned tree was (0, FALSE, FALSE, FALSE, FALSE, FALSE); the repaired    *)
@@ -32,7 +34,7 @@
 (***************************************************************************)
 EXTENDS Integers, Sequences, FiniteSets, TLC, SequencesExt
 
-CONSTANTS MinWait, HeadReliefChecksProc, TooBigUsesTotal, EarlyByShardCount, TailNeedsEmpty, TooBigFirst, TieBreakByOrder,
+CONSTANTS MinWait, HeadReliefChecksProc, TooBigUsesTotal, EarlyByShardCount, TailNeedsEmpty, TooBigFirst, TieBreakByOrder, RevertOrphanTransfer,
           InputSet            \* set of input records explored by this run
 
 VARIABLES in,        \* the input record (constant during a behaviour)
@@ -164,8 +166,11 @@ RECURSIVE GcShard(_, _, _)
 GcShard(p, s, S) ==    \* process the targets S of shard s (any order: independent)
   IF S = {} THEN p
   ELSE LET t == CHOOSE x \in S : TRUE
+           orphan == /\ RevertOrphanTransfer /\ t \in Active /\ p[s][t].times >= MinWait /\ p[s][t].state = "in_transfer"
+                     /\ ~\E o \in Changeable \ {s} : t \in DOMAIN p[o]
            p2 == IF GcRemoves(p, s, t)
                    THEN [p EXCEPT ![s] = [x \in (DOMAIN @) \ {t} |-> @[x]]]
+                 ELSE IF orphan THEN [p EXCEPT ![s][t].state = ""]
                    ELSE p
        IN GcShard(p2, s, S \ {t})
 RECURSIVE GcAll(_, _)
